@@ -80,7 +80,7 @@ H('c09_f1_header_value', 'packet_builder', {'C09': 'quick', 'C14': 'quick'}, est
   bounds='all 1-4 byte Remaining Length encodings (incl. non-minimal) with value > 0, header only', symbolic='5 bytes, k in 1..=4', encodes=_pb_enc)
 H('c09_f3_overlong_rl', 'packet_builder', {'C09': 'quick', 'C05': 'quick'}, est=200, timeout=1200, mem='M',
   bounds='fixed header + 4 continuation bytes (all other bits symbolic), split at any of 5 points, followed by a frame [h,1,d]', symbolic='8 bytes, cut position', encodes=_pb_enc)
-for nm, q in (('s1_three_frames', 'quick'), ('s2_nonminimal', 'quick'), ('s3_four_byte_len', 'thorough'), ('s4_error_then_frame', 'quick'),
+for nm, q in (('s1_three_frames', 'quick'), ('s2_nonminimal', 'thorough'), ('s3_four_byte_len', 'quick'), ('s4_error_then_frame', 'quick'),
               ('s5_partial_tail', 'thorough'), ('s6_three_byte_len', 'thorough')):
     H('c09_f2_' + nm, 'packet_builder', {'C09': q}, est=200, timeout=2400, mem='L',
       bounds='one concrete stream shape (frame sizes concrete, all non-length bytes symbolic); every partition into 1, 2 or 3 chunks and byte-at-a-time vs whole-frame feeding',
@@ -278,3 +278,62 @@ S('st_erase_stored_publish_v5', {'C12': 'quick', 'C06': 'thorough', 'C08': 'thor
 S('st_send_pubrec_v5_handled', {'C07': 'quick', 'C12': 'thorough'}, est=400,
   bounds='PUBREC (no reason code, or any defined reason code) sent by a connected v5.0 server for a handled QoS2 id; another handled id present', symbolic='h, g, reason code byte, with/without reason code',
   encodes=['process_send_v5_0_pubrec', 'v5_0::GenericPubrec::builder', 'PubrecReasonCode::try_from'])
+
+# v5.0 codecs
+for k in ('puback', 'pubrec', 'pubrel', 'pubcomp'):
+    K('c02_v5_' + k, {'C02': 'quick' if k == 'puback' else 'thorough', 'C03': 'quick' if k == 'puback' else 'thorough'}, est=200, stubs=[],
+      bounds='v5.0 %s without properties: identifier over all u16; with and without reason code (every defined code)' % k.upper(), symbolic='id, reason-code byte',
+      encodes=['v5_0::%s::{builder,build,size,to_buffers,to_continuous_buffer,parse}' % k])
+    K('c04_v5_%s_n4' % k, {'C04': 'quick' if k == 'puback' else 'thorough'}, est=300, stubs=_st, mem='L',
+      bounds='all byte strings of length 0..=4 (identifier, reason code, Property Length byte)', symbolic='4 bytes, length', encodes=['v5_0::%s::parse' % k, 'Properties::parse'])
+K('c04_v5_suback_nonminimal_proplen', {'C04': 'quick'}, est=300, stubs=_st, mem='L',
+  bounds='v5.0 SUBACK body [id, 0x80 0x00 (Property Length 0 in two bytes), reason code], id and code symbolic', symbolic='id, reason code', encodes=['v5_0::GenericSuback::parse', 'size', 'to_continuous_buffer'])
+for q in (0, 1):
+    K('c02_v5_publish_q%d' % q, {'C02': 'quick' if q == 1 else 'thorough', 'C03': 'quick' if q == 1 else 'thorough'}, est=300, stubs=_st, mem='L',
+      bounds='v5.0 PUBLISH QoS %d without properties: DUP, RETAIN, 1-byte ASCII topic, packet id (all u16), 2 payload bytes symbolic' % q, symbolic='flags, topic byte, id, payload',
+      encodes=['v5_0::GenericPublish::{builder,build,size,to_buffers,to_continuous_buffer,parse}'])
+K('c04_v5_publish_struct', {'C04': 'quick'}, est=300, stubs=_st, mem='L',
+  bounds='v5.0 PUBLISH body [0,1,t,x,x,0] truncated to 3..=6 bytes, all 16 flag nibbles', symbolic='flags, 3 bytes, length', encodes=['v5_0::GenericPublish::parse'])
+K('c02_v5_connack_disconnect_auth', {'C02': 'quick', 'C03': 'quick'}, est=300, stubs=_st, mem='L',
+  bounds='v5.0 CONNACK (flag, every reason code), DISCONNECT (with/without reason code), AUTH (empty), no properties', symbolic='flag, reason-code byte',
+  encodes=['v5_0::{Connack,Disconnect,Auth}::{builder,build,size,to_buffers,to_continuous_buffer,parse}'])
+K('c03_numeric_tables', {'C03': 'quick'}, est=30,
+  bounds='PropertyId, every reason/return-code enum and Qos: try_from(b) for all u8 against the specification tables', symbolic='b', encodes=['TryFrom<u8> of 14 enums'])
+
+for _v in ('v311', 'v5'):
+    S('st_recv_framing_error_' + _v, {'C19': 'quick' if _v == 'v5' else 'thorough', 'C09': 'thorough', 'C05': 'thorough'}, est=400,
+      bounds='recv() of a fixed header + four continuation bytes (all other bits symbolic) on a connected %s client, timers symbolic' % _v, symbolic='5 bytes, timer flags', encodes=['GenericConnection::recv', 'PacketBuilder::feed', 'cancel_timers'])
+S('st_recv_two_packets_one_buffer', {'C09': 'quick'}, est=500,
+  bounds='recv() three times on one buffer holding PINGRESP + PUBACK(i), id symbolic', symbolic='i, timer configuration', encodes=['GenericConnection::recv', 'PacketBuilder::feed', 'process_recv_packet'])
+K('c04_v311_connect_prefixes', {'C04': 'quick', 'C03': 'thorough', 'C05': 'thorough'}, est=400, stubs=_st, mem='L',
+  bounds='every prefix (0..=13 and 0..=19 bytes) of two v3.1.1 CONNECT bodies (without / with user name and password); keep-alive, flags and string bytes symbolic', symbolic='6 bytes, clean flag',
+  encodes=['v3_1_1::Connect::parse', 'size', 'to_continuous_buffer', 'accessors'])
+K('c04_v5_connect_prefixes', {'C04': 'thorough', 'C03': 'thorough'}, est=600, stubs=_st, mem='XL',
+  bounds='every prefix (0..=14 bytes) of a v5.0 CONNECT body without properties', symbolic='3 bytes, clean flag', encodes=['v5_0::Connect::parse'])
+K('c04_subscribe_family_prefixes', {'C04': 'thorough', 'C03': 'thorough'}, est=600, stubs=_st, mem='XL',
+  bounds='every prefix of SUBSCRIBE / UNSUBSCRIBE bodies (v3.1.1 and v5.0, one 1-byte topic filter)', symbolic='4 bytes', encodes=['{v3_1_1,v5_0}::{GenericSubscribe,GenericUnsubscribe}::parse', 'SubEntry::parse'])
+K('c04_suback_family_prefixes', {'C04': 'thorough', 'C03': 'thorough'}, est=600, stubs=_st, mem='XL',
+  bounds='every prefix of SUBACK (v3.1.1, v5.0) and UNSUBACK (v5.0) bodies with one code', symbolic='3 bytes', encodes=['{v3_1_1,v5_0}::GenericSuback::parse', 'v5_0::GenericUnsuback::parse'])
+
+# =============================================================================== C13 steps
+_uw_props = [(r'PropertiesParse5parse', 3)]
+S('st_send_publish_v5_manual_alias_bind', {'C13': 'quick'}, stubs=_st, est=900, mem='XL', timeout=3600,
+  bounds='v5.0 QoS0 PUBLISH (topic in {a,b}) with Topic Alias ax (all u16 >= 1) sent by a connected client whose table (max 3) holds two earlier bindings (aliases, topics symbolic); sender table compared with a receiver model for aliases 1..=3',
+  symbolic='k1, k2, a1, a2, kx, ax', encodes=['process_send_v5_0_publish', 'validate_topic_alias_range', 'TopicAliasSend::{insert_or_update,peek}', 'v5_0::GenericPublish::parse'])
+S('st_send_publish_v5_alias_resolve', {'C13': 'quick'}, stubs=_st, est=900, mem='XL', timeout=3600,
+  bounds='v5.0 QoS0 PUBLISH: (a) empty topic + alias (all u16 >= 1) with/without table and binding, (b) plain topic with automatic replacement on', symbolic='table present, k1, a1, auto-replace, kx, ax',
+  encodes=['process_send_v5_0_publish', 'validate_topic_alias', 'TopicAliasSend::{get,find_by_topic}', 'remove_topic_add_topic_alias'])
+S('st_recv_publish_v5_alias', {'C13': 'quick', 'C19': 'thorough'}, stubs=_st, est=900, mem='XL', timeout=3600,
+  bounds='v5.0 QoS0 PUBLISH with Topic Alias (all u16 >= 1), with or without topic, received by a connected server with/without an alias table (max 3) holding one binding', symbolic='table present, k1, a1, ax, with topic, kx',
+  encodes=['process_recv_v5_0_publish', 'TopicAliasRecv', 'add_extracted_topic_name', 'handle_v5_0_error'])
+S('st_recv_connect_v5_server', {'C05': 'quick', 'C15': 'thorough', 'C10': 'thorough'}, stubs=_st, est=700, mem='L',
+  bounds='v5.0 CONNECT without properties (keep-alive all u16, clean flag symbolic) received by a disconnected server that kept the receive timeout of an earlier connection', symbolic='old keep-alive, keep-alive, clean',
+  encodes=['process_recv_v5_0_connect', 'v5_0::Connect::parse', 'initialize', 'refresh_pingreq_recv'])
+S('st_restore_packets_v5', {'C16': 'quick'}, stubs=_st, est=600, mem='L',
+  bounds='restore_packets([QoS1 PUBLISH(i), QoS2 PUBLISH(j), PUBREL(k)]) (v5.0 packets) into a fresh v5.0 client, ids symbolic', symbolic='i, j, k', encodes=['restore_packets'])
+S('st_send_stored_limit_v5', {'C14': 'quick', 'C06': 'thorough', 'C08': 'thorough'}, stubs=_st, est=600, mem='L',
+  bounds='send_stored() with stored [v5.0 QoS1 PUBLISH (9 bytes), PUBREL (4 bytes)] under a peer limit L over all u32 >= 1', symbolic='L, i, k', encodes=['send_stored', 'GenericStore::for_each'])
+for _k, _t in (('puback_props127', 'thorough'), ('puback_props128', 'opt'), ('pubrec_props128', 'opt'), ('pubrel_props128', 'opt'), ('pubcomp_props128', 'opt')):
+    K('c02_v5_' + _k, {'C02': _t, 'C03': 'thorough'}, est=600, timeout=3600, stubs=_st, mem='XL',
+      bounds='v5.0 %s with reason code and one Reason String so that the property section is %s bytes (Property Length field one/two bytes); id, first and last string byte symbolic' % (_k.split('_')[0].upper(), _k[-3:]),
+      symbolic='id, first byte, last byte', encodes=['v5_0 ack builder/size/to_continuous_buffer/parse', 'Properties::{parse,size,to_continuous_buffer}', 'MqttString'])
